@@ -5,7 +5,9 @@ package json
 
 import (
 	"encoding/json"
+	"errors"
 	"fmt"
+	"unicode/utf8"
 
 	"github.com/hashicorp/hcl/v2"
 	"github.com/zclconf/go-cty/cty"
@@ -401,6 +403,11 @@ func parseString(p *peeker) (node, hcl.Diagnostics) {
 	tok := p.Read()
 	var str string
 	err := json.Unmarshal(tok.Bytes, &str)
+	if err == nil && !utf8.Valid(tok.Bytes) {
+		// encoding/json silently replaces invalid UTF-8 sequences with
+		// U+FFFD, but a JSON text must be valid UTF-8.
+		err = errors.New("invalid UTF-8 encoding")
+	}
 
 	if err != nil {
 		var errRange hcl.Range
